@@ -73,6 +73,9 @@ type pathState struct {
 	hstates    map[*Value]*hashState
 	proveMemo  map[int]bool
 	pemLen     int
+	localLoc   *Value
+	tzOff      *Term
+	now        *Term
 	preSlots   map[*Value]bool
 	preObjs    map[*ByteObj]bool
 	preMaps    map[*MapVal]bool
